@@ -26,6 +26,7 @@ SUITES = {
     "dayc": ("suites.dayc", "dayc", "DayConcrete.v: one whole day = Day.v's orchestration instantiated with the 19 unit process models (no replayed process), against real simulated days"),
     "runc": ("suites.runc", "dayc", "RunConcrete.v: the WHOLE RUN = Clock.v's guarded run loop + Day.v's season reset around the concrete day; the extracted run_till_c runs complete simulations on its own "
              "(state flowing from day to day, nothing recorded fed back) and all three daily tables, the summary rows and the final clock/state are compared with the implementation's"),
+    "initstate": ("suites.initstate", "initstate", "Init/InitState.v: the initial state object (InitialCondition defaults + read_model_initial_conditions incl. the water-table overrides) against real initialisations, every field"),
     "cropinit": ("suites.cropinit", "cropinit", "Init/CropInit.v: calculate_HIGC, calculate_HI_linear (fuel-bounded searches), derived crop parameters of compute_variables through real initialisations of all 37 catalogue crops"),
     "calendar": ("suites.calendar_", "calendar", "Init/Calendar.v: dates, season list, crop calendar"),
     "inputs": ("suites.inputs", "inputs", "Init/Inputs.v: weather binding, schedule re-indexing, groundwater series, CO2"),
